@@ -406,8 +406,22 @@ pub fn c17_check_one(base: &Chain, usei: u128, kusd: u128, third: u128, st: u128
             return;
         }
         Ok(fx) => {
-            let offer_amt: u128 = crate::hubcore::fx_attr(fx, DISP, "offer_coin_amount").and_then(|s| s.parse().ok()).unwrap_or(0);
-            let offer_den = crate::hubcore::fx_attr(fx, DISP, "offer_coin_denom").unwrap_or("").to_string();
+            // the balancing swap is the message to the swap contract that offers one of the two reward denoms (read from
+            // the executed message, not from response attributes); swaps of third denoms offer that third denom
+            let mut offer_amt: u128 = 0;
+            let mut offer_den = String::new();
+            for e in fx {
+                if let Fx::Exec { contract, msg, .. } = e {
+                    if contract == SWAP {
+                        let fc = &msg["swap_denom"]["from_coin"];
+                        let d = fc["denom"].as_str().unwrap_or("");
+                        if d == USEI || d == KUSD {
+                            offer_amt += fc["amount"].as_str().unwrap_or("0").parse::<u128>().unwrap_or(0);
+                            offer_den = d.to_string();
+                        }
+                    }
+                }
+            }
             let held = if offer_den == USEI { usei } else { kusd_total };
             if offer_amt > 0 {
                 acc.nontrivial += 1;
